@@ -65,6 +65,13 @@ RECURSIVE InstrStartR(_, _, _)
 InstrStartR(code, i, d) == IF i = d THEN TRUE ELSE IF i > d THEN FALSE
                            ELSE InstrStartR(code, i + 1 + PushLen(code[i + 1]), d)
 InstrStart(code, d) == d < Len(code) /\ InstrStartR(code, 0, d)
+(* the definition itself: position d lies inside the immediate data of some PUSHn (n = 1..32) that is    *)
+(* an instruction of the code; a jump destination is valid iff it is a JUMPDEST byte (0x5b) of the code  *)
+(* that does not lie inside push data.  DestDefsAgree (checked on every program of the exhaustive       *)
+(* configurations) states that the scan used by the machine decides exactly this.                        *)
+InPushData(code, d) == \E i \in (IF d > 32 THEN d - 32 ELSE 0)..(d - 1) :      \* push data reaches at most 32 bytes
+                         /\ InstrStartR(code, 0, i) /\ IsPush(code[i + 1]) /\ d <= i + PushLen(code[i + 1])
+ValidDestDecl(code, d) == d >= 0 /\ d < Len(code) /\ code[d + 1] = JUMPDEST /\ ~InPushData(code, d)
 ValidDest(code, w) == LET d == SmallVal(w) IN
                       d < Len(code) /\ code[d + 1] = JUMPDEST /\ InstrStartR(code, 0, d)
 
@@ -112,7 +119,12 @@ Halt(st, how, ret) == [kind |-> "halt", st |-> st, how |-> how, ret |-> ret]
 (* the slice selected here.                                                     *)
 RECURSIVE SumBytes(_, _)
 SumBytes(bs, i) == IF i > Len(bs) THEN 0 ELSE (bs[i] + 3 * SumBytes(bs, i + 1)) % 251
-Digest(bytes) == FromNat((Len(bytes) + SumBytes(bytes, 1)) % 256, 256)
+(* the one digest that is a published constant: KECCAK256 of the empty string (little-endian digits of *)
+(* c5d2460186f7233c927e7db2dcc703c0e500b653ca82273b7bfad8045d85a470)                                  *)
+KeccakEmpty == <<112, 164, 133, 93, 4, 216, 250, 123, 59, 39, 130, 202, 83, 182, 0, 229, 192, 3, 199, 220, 178, 125,
+                 126, 146, 60, 35, 247, 134, 1, 70, 210, 197>>
+Digest(bytes) == IF bytes = <<>> /\ WB = 32 THEN KeccakEmpty
+                 ELSE FromNat((Len(bytes) + SumBytes(bytes, 1)) % 256, 256)
 
 ExecOp(code, data, st, op, digest(_)) ==
   LET s   == st.stack
@@ -211,4 +223,5 @@ PcOnInstr == status = "run" => (st.pc >= Len(code) \/ InstrStart(code, st.pc))
 JumpLanding == jumped => (st.pc < Len(code) /\ code[st.pc + 1] = JUMPDEST /\ InstrStart(code, st.pc))
 (* memory only grows, in whole words, and only as far as the largest access *)
 MemMonotone == [][Len(st'.mem) >= Len(st.mem)]_vars
+DestDefsAgree == \A d \in 0..(Len(code) + 1) : ValidDest(code, FromNat(d, 256)) <=> ValidDestDecl(code, d)
 =============================================================================
